@@ -19,6 +19,7 @@ import AcryoVerif.Model.Pipe
 import AcryoVerif.Model.Chunks
 import AcryoVerif.Model.Sim
 import AcryoVerif.Model.Load
+import AcryoVerif.Model.Batch
 
 /-! Dispatch of hand-written model operations for the line-protocol driver. -/
 namespace Model
@@ -161,6 +162,13 @@ def opBin (a : Array Rat) : String :=
   let img : Img := ⟨n0, n1, n2, a.extract 4 (4 + n0 * n1 * n2)⟩
   let o := binImage img (i a 0)
   s!"{o.n0} {o.n1} {o.n2} | " ++ " ".intercalate (o.data.toList.map Canon.canon)
+
+/-- `imgtab <encoded history>` (see `Model.parseOp`) → the observation after every operation -/
+def opImgTab (a : Array Rat) : String :=
+  let xs := a.toList.map (·.floor)
+  match runObserve (xs.length + 1) Batch.empty xs [] with
+  | some obs => " ; ".intercalate obs
+  | none => "bad-arg"
 
 /-- `binaxis k b₁ … b_k data...` → the axis after the history of binnings `b₁, …, b_k` (`Model.binHist`). -/
 def opBinAxis (a : Array Rat) : String :=
@@ -587,6 +595,7 @@ def dispatch (name : String) (a : Array Rat) : Option String :=
   | "fscLabels" => some (opFscLabels a)
   | "bin" => some (opBin a)
   | "binaxis" => some (opBinAxis a)
+  | "imgtab" => some (opImgTab a)
   | "table" => some (opTable a)
   | "frame" => some (opFrame a)
   | "pose" => some (opPose a)
